@@ -634,7 +634,20 @@ func genSnip(r *Rng, depth int) SnipT {
 		if len(vocab) == 0 || r.Chance(6) {
 			vocab = append(vocab, Pick(r, c09Names)) // may be unbound
 		}
-		return SnipT{K: "tmpl", S: genTmplFormat(r, vocab), Names: names, Args: args}
+		t := SnipT{K: "tmpl", S: genTmplFormat(r, vocab), Names: names, Args: args}
+		if k > 0 && r.Chance(18) {
+			// a template nested in a template with the byte-identical format and other bindings (what a per-format cache of
+			// compiled templates would confuse): one argument becomes such a twin, bound to fresh leaves
+			twin := SnipT{K: "tmpl", S: t.S}
+			for _, nm := range names {
+				if r.Chance(75) {
+					twin.Names = append(twin.Names, nm)
+					twin.Args = append(twin.Args, genLeaf(r))
+				}
+			}
+			t.Args[r.Intn(k)] = twin
+		}
+		return t
 	case 5, 6, 7:
 		f := genSprintfFormat(r)
 		k := strings.Count(f, "%v") + strings.Count(f, "%T")
@@ -649,7 +662,16 @@ func genSnip(r *Rng, depth int) SnipT {
 				args[i] = genSnip(r, depth-1-r.Intn(2))
 			}
 		}
-		return SnipT{K: "sprintf", S: f, Args: args}
+		t := SnipT{K: "sprintf", S: f, Args: args}
+		if k > 0 && r.Chance(18) {
+			// the same for Sprintf: an argument that is a Sprintf snippet with the same format
+			twin := SnipT{K: "sprintf", S: f}
+			for range args {
+				twin.Args = append(twin.Args, genLeaf(r))
+			}
+			t.Args[r.Intn(k)] = twin
+		}
+		return t
 	case 8:
 		k := r.Intn(4)
 		args := make([]SnipT, k)
